@@ -33,7 +33,9 @@ def mk(kind, cfg, tau, ls):
     kw = cfg.kwargs()
     kw["tau"] = tau
     kw["limit_sigma"] = ls
-    return spaces.model_class(kind)(**kw)
+    m = spaces.model_class(kind)(**kw)
+    spaces.decoy_model(kind)
+    return m
 
 
 def differs(a, b, game):
